@@ -1,6 +1,7 @@
 import HdVerif.Proofs.PMap
 import HdVerif.Props.C05
 import HdVerif.Model.PMapRead
+import HdVerif.Proofs.CodecGlue
 /-! C19: every read path of one image object returns the plane that was stored, after every history (native integer maps);
 float maps: which reads work depends on the history (open finding C19-float-frames-unreadable).  The paths are C05's
 REGENERATED skeletons; `readStoredFrame` of `Model/PMap.lean` (hand-written) is shown equal to them. -/
@@ -302,5 +303,49 @@ theorem element_holds_bit_patterns (x : PMInput) (o : PMObject) (h : build x = .
   have : (plane x (f / x.m) (f % x.m))[p] = x.cell (f / x.m) p (f % x.m) := by
     simp [plane]
   rw [this, hcell, ofLeBytes_leBytes _ _ (hb _ _ _)]
+
+/-! ### a secondary capture through the readers of the image classes -/
+
+/-- **`get_stored_frame` / `get_frame` / `ImageFileReader.read_frame` on a written secondary capture = pydicom's decode of it**:
+the readers hand `decode_frame` the data set's own attributes (T13g, `Codec.call_sites_tie`) and the frame index has no effect
+on the one frame of a secondary capture (cells of >= 8 bits, or single bits filling whole bytes -- `encode_frame` accepts no
+other single-bit frame). -/
+theorem sc_readers_eq_decode (c : CodecImpl) (conv : List Int → List Int) (ts pi : String) (ba : Int) (x : Frame) (o : SCObject)
+    (h : scBuild c ts pi ba x = .ok o) (index : Int) :
+    readFrame c conv (o.module ts) o.frameBytes index = scDecode c conv ts o := by
+  obtain ⟨mod, bytes, hmod, henc, rfl⟩ := scBuild_ok c ts pi ba x o h
+  obtain ⟨hspp, _, _, _, _, _⟩ := sc_request ts pi ba x mod hmod
+  unfold readFrame scDecode SCObject.module PixelModule.params PixelModule.storedOrAllocated
+  simp only [hspp]
+  have hp : (⟨ts, mod.1, mod.2.1, pi, mod.2.2.2.1, (scParams ts pi mod).planar⟩ : Params) = scParams ts pi mod := rfl
+  rw [hp]
+  by_cases hcase : (scParams ts pi mod).bitsAllocated = 1 ∧ isEncapsulated (scParams ts pi mod).ts = false
+  · -- an accepted native single-bit frame fills whole bytes
+    have hts : (scParams ts pi mod).ts ∈ nativeSyntaxes := by
+      obtain ⟨r, hr, _⟩ := encodeFrame_ok c _ x bytes henc
+      have hs := route_sound (Req.of (scParams ts pi mod) x) r (by rw [← encodeRoute_eq]; exact hr)
+      obtain ⟨_, hc⟩ := hs
+      have henc2 := hcase.2
+      simp only [NativeOK, BaselineOK, RleOK, JpegFamilyOK, jpegBaseline, rle, jpegLs, jpegLsNear, j2k, j2kLossless] at hc
+      rcases hc with hc | hc | hc | hc
+      · rcases hc.1 with e | e <;> simp only [Req.of] at e <;> rw [e] <;> decide
+      · simp only [Req.of] at hc; rw [hc.1] at henc2; exact absurd henc2 (by decide)
+      · simp only [Req.of] at hc; rw [hc.1] at henc2; exact absurd henc2 (by decide)
+      · simp only [Req.of] at hc
+        rcases hc.1 with e | e | e | e <;> rw [e] at henc2 <;> exact absurd henc2 (by decide)
+    obtain ⟨r, hr, _⟩ := encodeFrame_ok c _ x bytes henc
+    obtain ⟨_, hn⟩ := accepted_native _ x r hr hts
+    have h8 : (x.rows * x.cols * x.spp) % 8 = 0 := by
+      obtain ⟨_, _, h3⟩ := hn
+      rcases h3 with h3 | h3
+      · have := h3.2.1
+        rw [Req.of_spp] at this
+        simp only [Req.of] at this
+        have e : ((x.rows : Int) * (x.cols : Int) * (x.spp : Int)) = ((x.rows * x.cols * x.spp : Nat) : Int) := by push_cast; rfl
+        rw [e] at this
+        exact_mod_cast this
+      · exact absurd hcase.1 h3.1
+    exact decode_index_irrelevant_aligned c conv _ x.rows x.cols x.spp bytes index h8
+  · exact decode_index_irrelevant c conv _ x.rows x.cols x.spp bytes index 0 hcase
 
 end HdVerif.PMap
